@@ -425,6 +425,126 @@ Proof.
     rewrite F3. rewrite span_plain_all by exact PL. reflexivity.
 Qed.
 
+(* ------------------------------------------------------------------ *)
+(** * the scalar codec inside a document: what follows the scalar is left alone *)
+
+Lemma span_plain_app s rest : forallb plain_class s = true ->
+  match rest with [] => True | c :: _ => plain_class c = false end -> span_plain (s ++ rest) = (s, rest).
+Proof.
+  intros PL R. induction s as [|c s IH]; cbn [app].
+  - destruct rest as [|c r]; [reflexivity|]. cbn [span_plain]. now rewrite R.
+  - cbn [forallb] in PL. apply andb_true_iff in PL. destruct PL as [P1 P2]. cbn [span_plain]. rewrite P1, IH by exact P2. reflexivity.
+Qed.
+
+Lemma repeat_cons_app {A} (x : A) n l : repeat x n ++ x :: l = x :: repeat x n ++ l.
+Proof. induction n as [|n IH]; [reflexivity|]. cbn [repeat app]. now rewrite IH. Qed.
+
+(** after the block: [j] empty lines, then a line indented by [k] < [li] blanks *)
+Lemma lit_scan_tail li j : forall k c0 r acc,
+  (k < li)%nat -> c0 <> 32 -> c0 <> 10 -> c0 <> 9 -> lit_byte_ok c0 ->
+  lit_scan (repeat 10 j ++ repeat SP k ++ c0 :: r) li false true true 0%nat acc = Some (repeat 10 (S j) ++ acc, c0 :: r, k).
+Proof.
+  induction j as [|j IH]; intros k c0 r acc K N32 N10 N9 B.
+  - cbn [repeat app]. rewrite lit_scan_spaces by (right; lia). cbn [lit_scan Nat.add].
+    replace (c0 =? 32) with false by (symmetry; now apply N.eqb_neq).
+    replace (c0 =? 9) with false by (symmetry; now apply N.eqb_neq). cbn [andb].
+    rewrite (bad_false _ B). replace (c0 =? 10) with false by (symmetry; now apply N.eqb_neq).
+    replace (k <? li)%nat with true by (symmetry; apply Nat.ltb_lt; exact K). reflexivity.
+  - cbn [repeat app lit_scan]. change (10 =? 32) with false. change (10 =? 9) with false.
+    change ((10 =? 13) || (10 =? 0) || (10 =? 4)) with false. change (10 =? 10) with true. cbn [andb]. cbv iota.
+    rewrite IH by assumption. cbn [repeat app]. now rewrite repeat_cons_app.
+Qed.
+
+Lemma drop_lfs_repeat n x xs : x <> 10 -> drop_lfs (repeat 10 n ++ x :: xs) = x :: xs.
+Proof.
+  intros H. induction n as [|n IH]; cbn [repeat app]; [now apply drop_lfs_head|].
+  cbn [drop_lfs]. change (10 =? 10) with true. cbv iota. exact IH.
+Qed.
+
+Theorem lit_roundtrip_ctx li minlit cps j k c0 r :
+  (minlit <= li)%nat -> forallb ok_cp cps = true -> literal_safe (utf8 cps) = true ->
+  (k < li)%nat -> c0 <> 32 -> c0 <> 10 -> c0 <> 9 -> lit_byte_ok c0 ->
+  load_scalar (CtxBlock li minlit) (lit_write li (utf8 cps) ++ repeat 10 j ++ repeat SP k ++ c0 :: r) = Some (utf8 cps, c0 :: r).
+Proof.
+  intros ML OK SAFE K N32 N10 N9 BC. unfold lit_write. rewrite decode_utf8 by exact OK. rewrite lit_body_bytes by exact OK.
+  set (s := utf8 cps) in *. unfold literal_safe in SAFE. destruct s as [|b0 s0] eqn:ES; [discriminate|].
+  apply andb_true_iff in SAFE. destruct SAFE as [SAFE CH]. apply andb_true_iff in SAFE. destruct SAFE as [SAFE E1].
+  apply andb_true_iff in SAFE. destruct SAFE as [NL NS].
+  apply negb_true_iff, N.eqb_neq in NL. apply negb_true_iff, N.eqb_neq in NS.
+  destruct (ends_in_one_lf_inv _ E1) as (p & EP & P).
+  destruct p as [|b0' body]; [cbn in EP; inversion EP; subst; congruence|].
+  cbn [app] in EP. inversion EP as [[EB ES0]]. subst b0'.
+  assert (Forall lit_byte_ok (b0 :: body)) as FB.
+  { assert (Forall (fun b => lit_char_ok b = true) (b0 :: s0)) as FC by (apply Forall_forall; now apply forallb_forall).
+    rewrite ES0 in FC. change (b0 :: body ++ [10]) with ((b0 :: body) ++ [10]) in FC.
+    apply Forall_app in FC. destruct FC as [FC _]. eapply Forall_impl; [|exact FC]. apply lit_char_ok_byte. }
+  inversion FB as [|? ? B0 FB']; subst.
+  cbn [app load_scalar]. unfold lit_load. change (10 =? 10) with true. cbv iota.
+  cbn [lit_bytes]. replace (b0 =? 10) with false by (symmetry; now apply N.eqb_neq).
+  rewrite <- app_assoc. rewrite lit_scan_spaces by (now left). cbn [app lit_scan Nat.add].
+  replace (b0 =? 32) with false by (symmetry; now apply N.eqb_neq). cbn [andb].
+  replace (Nat.max minlit li) with li by lia. rewrite Nat.ltb_irrefl. rewrite andb_false_r.
+  rewrite (bad_false _ B0). replace (b0 =? 10) with false by (symmetry; now apply N.eqb_neq).
+  destruct (lit_scan_body li (repeat 10 j ++ repeat SP k ++ c0 :: r) body FB') as [Hm _]. rewrite Hm.
+  rewrite lit_scan_tail by assumption.
+  f_equal. f_equal. unfold clip. rewrite rev_append_rev.
+  assert (exists x xs, rev body ++ [b0] = x :: xs /\ x <> 10) as (x & xs & X & XN).
+  { destruct P as [P|(p' & y & P & Y)]; [discriminate P|].
+    destruct (rev body) as [|z zs] eqn:R; [exists b0, []; split; [reflexivity|exact NL]|].
+    exists z, (zs ++ [b0]). split; [reflexivity|].
+    assert (rev (b0 :: body) = rev (p' ++ [y])) as Q by now rewrite P. cbn [rev] in Q. rewrite R, rev_app_distr in Q. cbn in Q.
+    inversion Q; subst. exact Y. }
+  rewrite X. rewrite drop_lfs_repeat by exact XN. cbn [repeat app]. change (10 =? 10) with true. cbv iota.
+  rewrite <- X. cbn [rev]. rewrite rev_app_distr, rev_involutive. reflexivity.
+Qed.
+
+(** what may follow a scalar of each style, and where the reader stands afterwards *)
+Inductive follows (li : nat) : fmt -> octs -> octs -> Prop :=
+| FollowPlain rest : match rest with [] => True | c :: _ => plain_class c = false end -> follows li FPlain rest rest
+| FollowDouble rest : follows li FDouble rest rest
+| FollowLiteralEnd : follows li FLiteral [] []
+| FollowLiteral j k c0 r :
+    (k < li)%nat -> c0 <> 32 -> c0 <> 10 -> c0 <> 9 -> lit_byte_ok c0 ->
+    follows li FLiteral (repeat 10 j ++ repeat SP k ++ c0 :: r) (c0 :: r).
+
+Lemma load_scalar_dq_ctx ctx cps rest : forallb ok_cp cps = true ->
+  load_scalar ctx (dq_write (utf8 cps) ++ rest) = Some (utf8 cps, rest).
+Proof.
+  intros OK. pose proof (dq_roundtrip cps rest OK) as H.
+  unfold load_scalar. unfold dq_write in *. cbn [app] in *. rewrite H. reflexivity.
+Qed.
+
+Theorem scalar_roundtrip_in_context s ctx rest rest' :
+  wf_scalar s -> wf_ctx ctx -> follows (ctx_li ctx) (scalar_fmt (ctx_flow ctx) s) rest rest' ->
+  load_scalar ctx (emit_scalar ctx s ++ rest) = Some (s, rest').
+Proof.
+  intros [(cps & OK & ->) ML] WC FO.
+  unfold emit_scalar, scalar_bytes. remember (scalar_fmt (ctx_flow ctx) (utf8 cps)) as f eqn:F.
+  destruct FO as [rest' R | rest' | | j k c0 r K N32 N10 N9 BC]; cbn [scalar_bytes_f].
+  - (* plain *)
+    unfold scalar_fmt, compute_fmt, style_request, style_request_fixed in F.
+    destruct (existsb is_break (utf8 cps)); [destruct (literal_safe (utf8 cps)); [destruct (ctx_flow ctx)|]; discriminate F|].
+    destruct (forallb plain_class (utf8 cps) && negb (three_dots (utf8 cps))) eqn:PL; [|discriminate F].
+    destruct (is_null_word (utf8 cps)) eqn:NW; [discriminate F|].
+    apply andb_true_iff in PL. destruct PL as [PL _].
+    pose proof (plain_first_not_special _ PL) as FS.
+    destruct (utf8 cps) as [|c r] eqn:E; [discriminate NW|]. destruct FS as (F1 & F2 & F3).
+    unfold load_scalar. cbn [app].
+    assert (forall X Y : option (octs * octs), (match c :: r ++ rest' with 124 :: _ => X | _ => Y end) = Y) as M.
+    { intros X Y. destruct c as [|p]; [reflexivity|]. repeat (destruct p as [p|p|]; try reflexivity). congruence. }
+    rewrite M. unfold flow_scalar. replace (c =? 34) with false by (symmetry; now apply N.eqb_neq).
+    rewrite F3. change (c :: r ++ rest') with ((c :: r) ++ rest'). rewrite span_plain_app by assumption. reflexivity.
+  - now apply load_scalar_dq_ctx.
+  - rewrite app_nil_r. pose proof (scalar_roundtrip (utf8 cps) ctx) as RT. unfold emit_scalar, scalar_bytes in RT. rewrite <- F in RT. cbn [scalar_bytes_f] in RT.
+    apply RT; [split; [exists cps; auto|exact ML]|exact WC].
+  - unfold scalar_fmt, compute_fmt, style_request, style_request_fixed in F.
+    destruct (existsb is_break (utf8 cps)).
+    + destruct (literal_safe (utf8 cps)) eqn:SAFE; [|discriminate F].
+      destruct ctx as [li minlit|]; [|discriminate F]. cbn [ctx_li wf_ctx] in *. now apply lit_roundtrip_ctx.
+    + destruct (forallb plain_class (utf8 cps) && negb (three_dots (utf8 cps))); [|discriminate F].
+      destruct (is_null_word (utf8 cps)); discriminate F.
+Qed.
+
 (** the statement is not vacuous: scalars of every style are in the domain *)
 Ltac wf_ex cps :=
   split; [exists cps; split; reflexivity
